@@ -73,7 +73,16 @@ pub fn compare(text: &str, labels: &[String], ctx: &mut Ctx) -> Outcome {
             format!("reference: Valid; apollo rejects: {}\n{}", r.messages, text),
         ),
         (Verdict::Invalid(codes), Ok(_)) => {
-            let joined: Vec<&str> = codes.iter().map(|s| s.as_str()).collect();
+            // An accepted case is a known finding only if EVERY rule code the reference reports
+            // is individually listed; it is then filed under the first listed code. Otherwise
+            // the signature is the sorted, joined set of all codes.
+            let all_known = codes.iter().all(|c| ctx.known.contains(&format!("C14|accepts|{}", c)));
+            let expected = ctx.expect.as_ref().and_then(|e| codes.iter().find(|c| format!("C14|accepts|{}", c) == *e));
+            let joined: Vec<&str> = match (all_known, expected) {
+                (true, Some(e)) => vec![e.as_str()],
+                (true, None) => vec![codes.iter().next().unwrap().as_str()],
+                _ => codes.iter().map(|s| s.as_str()).collect(),
+            };
             Outcome::fail(
                 format!("C14|accepts|{}", joined.join("+")),
                 format!("reference: Invalid {:?}; apollo accepts\n{}", codes, text),
@@ -89,15 +98,17 @@ pub fn check_text(text: &str, ctx: &mut Ctx) -> Outcome {
 
 /// Decode (schema, mutations) from the choice stream. Shared with C15/C16.
 pub fn gen_case(c: &mut Choices, tier: Tier) -> (String, Vec<String>) {
+    // the mutation plan is decoded FIRST, so that short choice vectors still yield mutated cases
+    let n = c.weighted(&[12, 60, 28]);
+    let plan: Vec<usize> = (0..n).map(|_| gm::pick(c)).collect();
     let opts = gs::Opts { max_types: if tier == Tier::Quick { 3 } else { 4 }, ..gs::Opts::default() };
     let mut doc = gs::schema(c, &opts);
     if c.bool(110) {
         gs::split_extensions(c, &mut doc);
     }
-    let n = c.weighted(&[12, 60, 28]);
     let mut labels = vec![];
-    for _ in 0..n {
-        labels.push(gm::mutate(c, &mut doc).to_string());
+    for k in plan {
+        labels.push(gm::mutate_nth(k, c, &mut doc).to_string());
     }
     (printer::print_document(&doc), labels)
 }
